@@ -304,6 +304,8 @@ def run_both(pid, mod, cases, rundir, tag="main", profile="release"):
     cp = os.path.join(rundir, "cases-%s.txt" % tag)
     ip = os.path.join(rundir, "impl-%s.txt" % tag)
     mp = os.path.join(rundir, "model-%s.txt" % tag)
+    pre = list(getattr(mod, "PREAMBLE", [])) if tag != "main-release" and tag != "main-debug" else []
+    cases = pre + list(cases)
     with open(cp, "w") as f:
         for c in cases:
             f.write(c + "\n")
@@ -320,7 +322,7 @@ def run_both(pid, mod, cases, rundir, tag="main", profile="release"):
     if len(impl) != len(cases) or len(model) != len(cases):
         raise RuntimeError("line count mismatch: %d cases, %d impl, %d model" % (len(cases), len(impl), len(model)))
     res = []
-    for c, i, m in zip(cases, impl, model):
+    for c, i, m in list(zip(cases, impl, model))[len(pre):]:
         if "|" in m:
             mo, ver = m.rsplit("|", 1)
         else:
